@@ -295,7 +295,8 @@ def _check(case, acc, tag):
             if rd["same_object_as_first"]:
                 acc.outcome("accessor:cached")
         elif rd["result"] == "RuntimeError":
-            acc.outcome("undecodable:RuntimeError-names-file" if case["config"].get("broken") and "deserialized" in rd["message"]
+            broken = case["config"].get("broken")
+            acc.outcome("undecodable:RuntimeError-names-file" if broken and broken[1] in NAMES[rd["accessor"]] and broken[1] in rd["message"]
                         else "missing:RuntimeError-names-location")
     if len(case["config"]["locs"]) > 1 or case.get("perm") or case["config"].get("broken"):
         acc.nontriv(json.dumps(case, sort_keys=True))
